@@ -3,6 +3,7 @@
 from __future__ import annotations
 
 import asyncio
+import os
 from binascii import hexlify
 from typing import Any
 
@@ -169,11 +170,22 @@ class BPWriter(MemWriter):
     """MemWriter whose drain() can be made to block (a peer that does not read: the stream is above its high-water mark)."""
 
     blocked = False
+    slow_close = 0.0   # seconds the peer needs to take the backlog off the connection once it is being closed
+    aborted = False
 
     async def drain(self) -> None:
         if self.blocked:
             await asyncio.sleep(3600)
         await super().drain()
+
+    async def wait_closed(self) -> None:
+        if self.slow_close:
+            await asyncio.sleep(self.slow_close)  # close() flushes what write() has accepted; that takes as long as the peer takes
+        await super().wait_closed()
+
+    def abort(self) -> None:
+        self.aborted = True  # drops whatever has not been sent yet
+        super().abort()
 
 
 def _make_transport(kind: str, reader: asyncio.StreamReader, writer: MemWriter):
@@ -191,6 +203,8 @@ def check(case: dict[str, Any]) -> list[tuple[str, str]]:
         return _check_server(case)
     if kind == "server2":
         return _check_server_multi(case)
+    if kind == "real":
+        return check_real(case)
     out: list[tuple[str, str]] = []
     expected = _model_client(case)
     arr, t_eof, _ = _arrivals(case)
@@ -234,6 +248,16 @@ def check(case: dict[str, Any]) -> list[tuple[str, str]]:
             if not wblock and data != hexlify(m) + b"\n":
                 out.append((f"C19/{kind}/write-framing", f"write({m.hex()}) put {data!r} on the wire"))
         writer.blocked = False
+        if wblock and any(ok for _, ok in written):
+            # closing the transport while the peer is still catching up: lines that write() accepted are not thrown away
+            writer.slow_close = 3.0
+            try:
+                await tr.close()
+            except Exception as e:  # noqa: BLE001
+                out.append((f"C19/{kind}/close-raises", f"{type(e).__name__}: {e}"))
+            if writer.aborted:
+                out.append((f"C19/{kind}/write-framing/accepted-lines-discarded-at-close", f"writes {[(m.hex()[:16], ok) for m, ok in written]}: close() aborted the connection "
+                            "while accepted lines were still waiting to be sent"))
         if wblock:
             stream = b"".join(b for _, b in writer.log[n_start:])
             lines = stream.split(b"\n")
@@ -297,6 +321,8 @@ def _check_server(case: dict[str, Any]) -> list[tuple[str, str]]:
         async def handle_request(self, request_pdu: bytes):  # type: ignore[override]
             i = len(seen)
             seen.append(request_pdu)
+            # the ECU takes its time, and not the same time for every request: replies still leave in request order
+            await asyncio.sleep(0.013 * (3 - request_pdu[0] % 4))
             return f_reply(request_pdu, i), 0.0
 
     async def run() -> None:
@@ -308,13 +334,13 @@ def _check_server(case: dict[str, Any]) -> list[tuple[str, str]]:
         if case["eof_gap"] == 0:
             # the client half-closes right behind its last request: end-of-stream arrives in the same instant as the last segment
             _schedule(loop, reader, arr, arr[-1][0])
-            await asyncio.sleep(arr[-1][0] + 0.25)
+            await asyncio.sleep(arr[-1][0] + 0.25 + 0.04 * len(msgs))
             state["alive_before_eof"] = True
             state["wire_before_eof"] = writer.data()
         else:
             _schedule(loop, reader, arr, None)
             # just before EOF the loop must still be running and all requests answered
-            await asyncio.sleep(arr[-1][0] + 0.25)
+            await asyncio.sleep(arr[-1][0] + 0.25 + 0.04 * len(msgs))
             state["alive_before_eof"] = not task.done()
             state["wire_before_eof"] = writer.data()
             reader.feed_eof()
@@ -398,7 +424,94 @@ def _check_server_multi(case: dict[str, Any]) -> list[tuple[str, str]]:
     return out
 
 
+def check_real(case: dict[str, Any]) -> list[tuple[str, str]]:
+    """The virtual ECU started the way a user starts it (`gallia script vecu rng <uri>` in a child process, i.e. through the
+    transports' run() methods and real sockets) and gallia's own line transport as client: requests of 1..4095 bytes, singly and
+    as a burst, each answered by exactly one line that belongs to it."""
+    import shutil
+    import socket
+    import subprocess
+    import sys
+    import tempfile
+    import time
+    from pathlib import Path
+
+    d = Path(tempfile.mkdtemp(prefix="vf-c19real."))
+    out: list[tuple[str, str]] = []
+    scheme = case["scheme"]
+    if scheme == "unix-lines":
+        uri = server_uri = f"unix-lines://{d}/ecu.sock"
+    else:
+        sk = socket.socket()
+        sk.bind(("127.0.0.1", 0))
+        port = sk.getsockname()[1]
+        sk.close()
+        uri, server_uri = f"tcp-lines://127.0.0.1:{port}", f"tcp://127.0.0.1:{port}"  # the server side names the scheme "tcp"
+    env = {k: v for k, v in os.environ.items() if not k.startswith("GALLIA_") or k == "GALLIA_VERIF"}
+    server = subprocess.Popen([sys.executable, "-c", "import sys; from gallia.cli.gallia import main; sys.argv[0] = 'gallia'; sys.exit(main())",
+                               "script", "vecu", "rng", server_uri, "--seed", str(case["seed"])], cwd=d, env=env, stdout=subprocess.DEVNULL, stderr=subprocess.DEVNULL)
+    try:
+        async def go() -> None:
+            from gallia.transports import TCPLinesTransport
+            from gallia.transports.unix import UnixLinesTransport
+
+            cls = UnixLinesTransport if scheme == "unix-lines" else TCPLinesTransport
+            tr = None
+            for _ in range(200):
+                try:
+                    tr = await cls.connect(uri, timeout=1)
+                    break
+                except (ConnectionError, FileNotFoundError, OSError):
+                    await asyncio.sleep(0.05)
+            if tr is None:
+                out.append(("C19/real/server-not-reachable", f"{uri}: no connection within 10 s"))
+                return
+
+            def belongs(req: bytes, rep: bytes) -> bool:
+                return len(rep) >= 1 and ((rep[0] == 0x7F and len(rep) == 3 and rep[1] == req[0]) or rep[0] == (req[0] + 0x40) & 0xFF)
+
+            for n in case["sizes"]:
+                req = bytes([0x22]) + bytes((i * 7 + n) & 0xFF for i in range(n - 1))
+                await tr.write(req, timeout=5)
+                try:
+                    rep = await tr.read(timeout=5)
+                except Exception as e:  # noqa: BLE001
+                    out.append((f"C19/real/{scheme}/no-reply/{'<=2048' if n <= 2048 else '>2048'}", f"request of {n} bytes: {type(e).__name__}: {e}"))
+                    return
+                if not belongs(req, rep):
+                    out.append((f"C19/real/{scheme}/foreign-reply", f"request of {n} bytes starting {req[:4].hex()}: reply {rep.hex()[:40]}"))
+                    return
+            burst = [bytes([sid, 0x01 + i]) for i, sid in enumerate(case["burst"])]
+            for b in burst:
+                await tr.write(b, timeout=5)
+            for b in burst:
+                try:
+                    rep = await tr.read(timeout=5)
+                except Exception as e:  # noqa: BLE001
+                    out.append((f"C19/real/{scheme}/burst/no-reply", f"{len(burst)} requests sent back to back; reply to {b.hex()}: {type(e).__name__}: {e}"))
+                    return
+                if not belongs(b, rep):
+                    out.append((f"C19/real/{scheme}/burst/out-of-order", f"reply {rep.hex()[:20]} where the one for {b.hex()} was due"))
+                    return
+            await tr.close()
+
+        asyncio.run(asyncio.wait_for(go(), 120))
+    except Exception as e:  # noqa: BLE001
+        out.append((f"C19/real/harness/{type(e).__name__}", str(e)[:200]))
+    finally:
+        server.terminate()
+        try:
+            server.wait(10)
+        except Exception:  # noqa: BLE001
+            server.kill()
+            server.wait()
+        shutil.rmtree(d, ignore_errors=True)
+    return out
+
+
 def nontrivial(case: dict[str, Any]) -> bool:
+    if case["kind"] == "real":
+        return True
     if case["kind"] == "server2":
         return len(case["msgs"]) >= 2
     ends = set()
@@ -417,6 +530,8 @@ def nontrivial(case: dict[str, Any]) -> bool:
 
 
 def classify(case: dict[str, Any]) -> str:
+    if case["kind"] == "real":
+        return f"real-sockets/{case['scheme']}"
     if case["kind"] == "server2":
         return "server/two-connections"
     ends = set()
@@ -431,8 +546,8 @@ def classify(case: dict[str, Any]) -> str:
 
 def shards(tier: str) -> list[dict[str, Any]]:
     if tier == "quick":
-        return [{"what": "gen", "n": 1000} for _ in range(12)] + [{"what": "splits", "n": 12}]
-    return [{"what": "gen", "n": 12000} for _ in range(15)] + [{"what": "splits", "n": 400}]
+        return [{"what": "gen", "n": 1000} for _ in range(12)] + [{"what": "splits", "n": 12}, {"what": "real", "n": 1}]
+    return [{"what": "gen", "n": 12000} for _ in range(15)] + [{"what": "splits", "n": 400}, {"what": "real", "n": 6}]
 
 
 def run_shard(spec: dict[str, Any], seed: int) -> Collector:
@@ -446,6 +561,17 @@ def run_shard(spec: dict[str, Any], seed: int) -> Collector:
         for b, m in res:
             col.violation(b, case, m)
 
+    if spec["what"] == "real":
+        for i in range(spec["n"]):
+            for scheme in ("unix-lines", "tcp-lines"):
+                k = seed * 13 + i * 7
+                case = {"kind": "real", "scheme": scheme, "seed": 3 + (k % 5), "sizes": [1, 2, 2048, 2049, 4095, 3 + (k * 37) % 4000, 1025 + (k * 101) % 3000],
+                        "burst": [0x3E, 0x22, 0x10, 0x19, 0x27, 0x31, 0x85, 0x3E, 0x11, 0x14] * 3}
+                res = check(case)
+                col.case(("real", scheme, case["seed"], tuple(case["sizes"])), True, cls=classify(case), sample=case)
+                for b, m in res:
+                    col.violation(b, case, m)
+        return col
     if spec["what"] == "splits":
         # every single split point of short streams, exhaustively, for all three kinds
         def body2(base: dict[str, Any]) -> None:
